@@ -425,3 +425,29 @@ def run_history(hist):
                         "pools": [w.method_state(k) for k in range(len(w.methods))]})
         impl.append("ok " + w.dump())
     return lines, impl, w
+
+
+def binding_check():
+    """the REAL binding rule of programs/program.py: Program._gen_method (called on a stub program that
+    holds two follow-up schedules) must hand the screening method the schedule of its preferred
+    follow-up method, and Program.do_daily_program_deployment must run follow-up methods last"""
+    from programs.program import Program
+
+    names = ["M0", "FU", "FU_other"]
+    sites = [StubSite(i, names, 120) for i in range(2)]
+    end = SIM_START + timedelta(days=10)
+    sink = io.StringIO()
+    with contextlib.redirect_stdout(sink):
+        other = FollowUpMobileSchedule("FU_other", sites, SIM_START, end, 1, 1)
+        mine = FollowUpMobileSchedule("FU", sites, SIM_START, end, 1, 1)
+
+        class _P:
+            _survey_schedules = {"FU_other": other, "FU": mine}
+            _input_dir = ""
+
+        mp = {"stationary": False, "rd": 0, "delay": 0, "prop": [1, 1], "thrFirst": True, "thr": [1, 1],
+              "inst": None, "filter": "recent", "sw": 1, "lw": 1, "sthr": [1, 1], "lthr": [1, 1]}
+        m = Program._gen_method(_P(), "M0", screening_props(mp), False, sites)
+    ok = isinstance(m, SiteLevelMethod) and m._follow_up_schedule is mine \
+        and m._site_IDs_in_follow_up_queue is mine.get_site_id_queue_list()
+    return ok, {"bound_to": getattr(getattr(m, "_follow_up_schedule", None), "_method", None), "expected": "FU"}
